@@ -792,6 +792,12 @@ pub fn parse_adt_with_metadata<R: Read + Seek>(reader: &mut R) -> Result<(Parsed
     let discovery = discover_chunks(reader)?;
     let discovery_duration = discovery_start.elapsed();
 
+    // Every ADT file, monolithic or split, starts with an MVER chunk. Without any chunk there
+    // is nothing to route to a parser: unrelated data must not come back as an empty tile.
+    if discovery.total_chunks == 0 {
+        return Err(crate::AdtError::MissingRequiredChunk(crate::ChunkId::MVER));
+    }
+
     // Detect version and file type
     let version = AdtVersion::from_discovery(&discovery);
     let file_type = AdtFileType::from_discovery(&discovery);
